@@ -24,9 +24,34 @@ RULE = ("structured random cases per generator (all 8 numbers-vs-streams combina
         "must keep their pristine items) + long runs (up to 50 000 samples; int(modulo/step) = 2**k -1/0/+1 for k = 2..14 "
         "in all 8 argument combinations, at least two batch boundaries crossed; every other generator with thousands of "
         "samples; a sparse set of positions - first items, neighbourhood of batch boundaries and powers of two, random, "
-        "last - plus the length and the end are compared exactly); a case is non-trivial when the impl yields at least "
+        "last - plus the length and the end are compared exactly) + the FLOAT regime bit for bit (entries *_float, "
+        "harness/props/c19_float.py): modulo_counter on arbitrary binary64 values - tiny negative / positive starts (0.3-0.1-0.2, "
+        "-1e-100, denormals, m*2**-54), starts one ulp around multiples of the modulo, negative modulo and step, zero / -0.0 / huge "
+        "/ inf / nan steps, denormal and 1e300 modulos - every all-numbers call in all EIGHT numbers-vs-Stream(number) spellings "
+        "(Stream / list / iter / tuple; positional / keyword / documented defaults omitted), varying streams in all seven stream "
+        "shapes; sinusoid and TableLookup oscillators with tiny negative phases; line / fadein / fadeout / ones / zeros / zeroes / "
+        "impulse / adsr / attack with durations one or two ulps around x.5 (0.49999999999999994), durations given as float / int / "
+        "bool / Fraction / float subclass, inf / -inf / nan / None / omitted, every positional / keyword / omitted-default call "
+        "shape of line, truthy and falsy non-bool `finish`; white / gauss noise with one limit by keyword and the other left to "
+        "its default, degenerate distributions (low == high, sigma == 0: exact values); a case is non-trivial when the impl yields at least "
         "one sample (multi: two calls do); distinct = distinct JSON case")
 TRUSTED = [
+    "float regime: Lean's `Float` + - * / are the C double operations (IEEE binary64, round to nearest even) exactly as "
+    "CPython's; C fmod, Python's sign adjustment of float `%` (Objects/floatobject.c float_rem: `mod += wx` when the signs "
+    "differ, copysign(0, wx) for a zero remainder), int(), math.ceil and the exact decoding of a float are written in Lean "
+    "from the bit pattern in integer arithmetic (ALV/Model/C19Float.lean: cFmod, pyModF, fTrunc, fCeil) and validated only "
+    "differentially (bit for bit on every float case); `Float.ofInt` / `Float.ofNat` / `Float.scaleB` are used on exactly "
+    "representable values only; Lean's Float.sin is compared with math.sin within 4e-16; a number given as int / bool / "
+    "Fraction enters every mixed operation of the modelled code as float(x) (python's correctly rounded conversion, done by "
+    "the harness)",
+    "float regime, what is proved and what is observed: the operation-generic definitions (mcG, lineG, constG, impulseG) over "
+    "the exact operations ARE the model / the specification (theorems generic_*), every output of mcG over ANY operations is a "
+    "double reduction y % m % m (counter_outputs_double_reduced) and a double reduction with any monotone rounding lies in "
+    "[0, m) (float_mod_double_range, counter_range_any_rounding) - that IEEE round-to-nearest is such a rounding, and that "
+    "pyModF is fmodR with it, is NOT proved; the range [0, m) resp. (m, 0], the equality of the first output and of all "
+    "one-by-one paths across the eight spellings, and the lengths int(float(dur)+.5) are therefore CHECKED on every float "
+    "output of the real code; adsrG / attackG / tableCallG over the exact operations are not proved equal to the model "
+    "(tied bit for bit only)",
     "histories (tl_hist): hand-written Lean model ALV/Model/C19Obj.lean of the TableLookup object (reference to a python "
     "list, length cached by the `table` setter, `cycles`), of python list item assignment / append / pop, of operator "
     "dispatch (TableLookup vs int/float/complex scalar vs other -> NotImplementedError) and of the lazy stream returned by "
@@ -60,6 +85,11 @@ TRUSTED = [
     "noise generators: duration and value range only (random values are not modelled)",
 ]
 ASSUMPTIONS = [
+    "float regime: path independence is demanded exactly only where it holds in IEEE arithmetic (first output; all spellings "
+    "that take a one-by-one path) and cyclically within 1e-6*|modulo| for |start|, |step| <= 1e6*|modulo|; an all-numbers "
+    "call whose modulo/step overflows to inf (step denormal) or is nan raises OverflowError / ValueError from int() at the "
+    "first read while the Stream(step) spelling does not - predicted by the twin, not counted as a violation; negative "
+    "attack / decay / release times have no documented length",
     "modulo_counter: float arguments are dyadic rationals of bounded size (binary floating point exact); non-dyadic "
     "rationals only as Fractions in the branches that keep them exact (start not iterable); modulo = 0 is checked "
     "to raise ZeroDivisionError at the first output that needs it",
@@ -76,7 +106,11 @@ ASSUMPTIONS = [
     "long runs: values are small dyadic rationals so that binary floating point is exact over tens of thousands of steps",
 ]
 MANIFEST = {
-    "text": "48 Lean 4 theorems over any linearly ordered field with a floor (Q, R): every branch and fast path of "
+    "text": "57 Lean 4 theorems. Float regime: operation-generic generators (record NumOps) run on IEEE binary64 predict the "
+            "real float outputs bit for bit (all eight branches / spellings of modulo_counter, fast paths, oscillators, "
+            "durations at the x.5 rounding boundaries); over the exact operations they are the proved model; every output of "
+            "every path is a double reduction y % m % m, which lies in [0, m) for any monotone rounding while a single float "
+            "% only reaches the closed [0, m]. Exact regime, over any linearly ordered field with a floor (Q, R): every branch and fast path of "
             "modulo_counter = recursive spec = closed form (constant modulo), range, length; line/fades/ones/zeros/"
             "impulse/adsr/attack shapes and durations; TableLookup = cyclic linear interpolation of the unreduced "
             "position; sinusoid = sin(phase + k freq) over R; karplus_strong shift register = recursion; resample "
@@ -933,8 +967,18 @@ def gen_noise(rng, tier, scale):
             dur = num(rng, d)
         lo, hi = sorted([dyadic(rng), dyadic(rng)])
         c = {"entry": what, "dur": dur, "n": rng.choice([0, 1, 5, 30, 60, 100])}
-        if rng.random() < 0.6:
+        r = rng.random()
+        if r < 0.45:
             c["p1"], c["p2"] = num(rng, lo), num(rng, hi if what == "white_noise" else abs(hi))
+        elif r < 0.6:                                        # degenerate: the value is determined
+            c["p1"], c["p2"] = (num(rng, lo), num(rng, lo)) if what == "white_noise" else (num(rng, lo), num(rng, F(0)))
+        elif r < 0.8 and isinstance(dur, dict):              # one parameter by keyword, the other left to its default
+            if what == "white_noise":
+                c["kw"] = rng.choice(["low", "high"])
+                c["p"] = num(rng, -abs(lo) - 1 if c["kw"] == "low" else abs(hi) + 1)
+            else:
+                c["kw"] = rng.choice(["mu", "sigma"])
+                c["p"] = num(rng, lo if c["kw"] == "mu" else F(0))
         cases.append(c)
     return cases
 
@@ -945,6 +989,8 @@ def co_noise(c):
     try:
         if "p1" in c:
             s = f(_dur_py(c["dur"]), pv(c["p1"]), pv(c["p2"]))
+        elif "kw" in c:
+            s = f(_dur_py(c["dur"]), **{c["kw"]: pv(c["p"])})
         elif c["dur"] is None and c["n"] % 2:
             s = f()
         else:
@@ -967,12 +1013,33 @@ def cmp_noise(c, io, drv):
         res.append(("model", "%s: impl yields %d samples/%s, model %d/%s" % (c["entry"], len(io["out"]), io["end"], drv["model"], exp_end)))
     bad = len(io["out"]) != drv["spec"] or io["end"] != ("fuel" if drv["spec"] == c["n"] else "stop") or not io["floats"]
     if not bad and c["entry"] == "white_noise":
-        lo, hi = (qv(c["p1"]), qv(c["p2"])) if "p1" in c else (F(-1), F(1))
+        lo, hi = (qv(c["p1"]), qv(c["p2"])) if "p1" in c else (F(-1), F(1))      # documented defaults [-1, 1]
+        if "kw" in c:
+            lo, hi = (qv(c["p"]), hi) if c["kw"] == "low" else (lo, qv(c["p"]))
         bad = any(not (lo <= dec(x) <= hi) for x in io["out"])
+        if not bad and len(io["out"]) >= 40 and lo < hi:
+            # the whole range is used: both halves are hit (a fair source misses one with p = 2 * 2**-40)
+            mid = (lo + hi) / 2
+            bad = not (any(dec(x) < mid for x in io["out"]) and any(dec(x) > mid for x in io["out"]))
+    if not bad and c["entry"] == "gauss_noise":
+        mu, sigma = (qv(c["p1"]), qv(c["p2"])) if "p1" in c else (F(0), F(1))    # documented defaults N(0, 1)
+        if "kw" in c:
+            mu, sigma = (qv(c["p"]), sigma) if c["kw"] == "mu" else (mu, qv(c["p"]))
+        if sigma == 0:
+            bad = any(dec(x) != mu for x in io["out"])                              # degenerate: exactly mu
+        else:
+            bad = any(abs(dec(x) - mu) > 12 * sigma for x in io["out"])             # 12 sigma: p < 1e-32
     if bad:
         res.append(("spec", "%s: impl yields %d samples/%s (range ok: see values), spec %d samples" % (
             c["entry"], len(io["out"]), io["end"], drv["spec"])))
     return res
+
+
+def tally_noise(eng, c, io):
+    tally_const(eng, c, io)
+    eng.count("noise_params", "kw:" + c["kw"] if "kw" in c else
+              ("degenerate" if "p1" in c and (c["p1"]["v"] == c["p2"]["v"] or dec(c["p2"]["v"]) == 0) else
+               "positional" if "p1" in c else "defaults"))
 
 
 def classify_noise(c, io, drv):
@@ -1837,7 +1904,7 @@ ENTRIES = {
                  neigh=neigh_line, classify=classify_line, request=req_line),
     "ones": dict(gen=gen_const, co=co_const, cmp=cmp_const, tally=tally_const, shrink=shrink_const,
                  neigh=neigh_const, classify=classify_const, request=req_const),
-    "white_noise": dict(gen=gen_noise, co=co_noise, cmp=cmp_noise, tally=tally_const, shrink=shrink_const,
+    "white_noise": dict(gen=gen_noise, co=co_noise, cmp=cmp_noise, tally=tally_noise, shrink=shrink_const,
                         neigh=neigh_const, classify=classify_noise, request=req_noise),
     "adsr": dict(gen=gen_adsr, co=co_adsr, cmp=cmp_adsr, tally=tally_adsr, shrink=shrink_adsr,
                  neigh=neigh_adsr, classify=classify_adsr, request=req_adsr),
@@ -1854,10 +1921,12 @@ ENTRIES = {
 from props import c19_hist as H          # noqa: E402  (helper modules; they use the helpers above)
 from props import c19_long as L          # noqa: E402
 from props import c19_multi as M         # noqa: E402
+from props import c19_float as FL        # noqa: E402
 ENTRIES["multi"] = dict(gen=None, impl=M.impl, cmp=M.compare, tally=M.tally, shrink=M.shrink,
                         classify=M.classify, request=M.request)
 ENTRIES["tl_hist"] = dict(gen=H.generate, impl=H.impl, cmp=H.compare, tally=H.tally, shrink=H.shrink,
                           classify=H.classify, request=H.request)
+ENTRIES.update(FL.ENTRIES)               # the float regime, bit for bit (entries *_float)
 GEN_OF = {}          # entry -> the entry whose generator makes it
 for _alias, _of in (("table_getitem", "table_call"), ("fadein", "line"), ("fadeout", "line"), ("zeros", "ones"), ("zeroes", "ones"),
                     ("impulse", "ones"), ("attack", "adsr"), ("gauss_noise", "white_noise")):
